@@ -38,4 +38,8 @@ def obligations(tier):
             if (target == 2 and kind != "{") or (target == 3 and kind != "["):
                 cov = []  # a typed map/slice target only accepts texts of its own kind
             L.append(ob("route/t%d/target=%d" % (i, target), ".", "VerifC03Route", [t, target], covers=cov, max_seconds=600))
+    # numbers that overflow float64 at every position and through every route: always an error
+    for i, t in enumerate(['[1e400]', '{"a":[-1E999,2]}', '[[1.5e309],?]'] if q else ['[1e400]', '{"a":[-1E999,2]}', '[[1.5e309],?]', '{"?":1e400}', '[1,[2,[1e999]]]', ' 1e400 ']):
+        for target in range(5):
+            L.append(ob("overflow/t%d/target=%d" % (i, target), ".", "VerifC03Route", [t, target], max_seconds=600))
     return L
